@@ -66,3 +66,8 @@ Definition fwd_ok (o : fwd_obs) : bool :=
   && negb (fo_close_in_flight o)
   && (if 0 <? fo_closes o then fo_retired o else true)
   && (if fo_quiescent o && fo_retire_done o then fo_closes o =? 1 else true).
+
+(* --- the forwarder cache: every forwarder instance ever created is closed exactly once by the time the
+   controller is quiescent and closeAll has run, and never while a query that obtained it is in flight --- *)
+Definition fcache_ok (instances : list (N * bool)) : bool :=
+  forallb (fun i => (fst i =? 1) && negb (snd i)) instances.
